@@ -623,7 +623,7 @@ def _pow_loop_step(rep, tag, fn, rp, *, is_elt=None, mk=None, expo=None, env=Non
         with env():
             kind, st = cut["init"](x, n)
         if kind != "state":
-            raise core.Unsupported("prologue returned")
+            return n, ("__prologue_returned__", st)      # early return: its value must already be x^n on this path
         return n, st
     # (1) prologue establishes the invariant; find which variables hold o, t, e
     found = {}
@@ -634,6 +634,17 @@ def _pow_loop_step(rep, tag, fn, rp, *, is_elt=None, mk=None, expo=None, env=Non
             rep.unknown("%s: prologue not executable symbolically: %r" % (tag, pth.value))
             return
         n, st = pth.value
+        if isinstance(st, tuple) and len(st) == 2 and st[0] == "__prologue_returned__":
+            val = st[1]
+            v_, m_ = pth.ctx.prove(expo(val).t == n.t, timeout_ms=20000) if is_elt(val) else ("sat", None)
+            if v_ != "unsat":
+                found["bad_prologue"] = True
+                if v_ == "sat" and m_ is not None:
+                    try:
+                        found.setdefault("suspects", []).append(m_.eval(n.t, model_completion=True).as_long())
+                    except Exception:
+                        pass
+            return
         elts = [k for k, v in st.items() if is_elt(v)]
         if len(elts) > 2 and cut["params"][0] in elts:
             elts.remove(cut["params"][0])       # a separate running variable exists: the parameter itself is only read
@@ -648,7 +659,11 @@ def _pow_loop_step(rep, tag, fn, rp, *, is_elt=None, mk=None, expo=None, env=Non
         return
     evar = found["ints"][0]
 
-    suspects = []
+    suspects = list(found.get("suspects", []))
+    if found.get("bad_prologue"):
+        rep.fail("%s: an early return of the prologue is not x^n (n = %s)" % (tag, suspects[:3]),
+                 dict(rp, args=dict(rp["args"], extra_n=[str(x) for x in suspects[:6]])))
+        return
     # try both role assignments for (acc, pw)
     for acc, pw in (found["elts"], found["elts"][::-1]):
         ok = [True]
@@ -671,7 +686,7 @@ def _pow_loop_step(rep, tag, fn, rp, *, is_elt=None, mk=None, expo=None, env=Non
                     return ("exit", n, r, None)
                 kind, st2 = cut["body"](**st)
             if kind != "state":
-                raise core.Unsupported("loop body returned")
+                return ("exit", n, st2, None)          # a return from inside the loop body: its value must be x^n
             return ("step", n, st2, e)
 
         def on_step(pth, acc=acc, pw=pw):
@@ -877,6 +892,31 @@ def check_inv_loop_step(rep, fn, tag, modulus, rp):
     Post-state after the real loop body: the invariant again (identity over Z, the quotient
     high // low is an opaque term), 0 <= low' < low (termination), high' = low.
     Prologue: establishes the invariant.  Exit with low == 1: (lm % n) * a == 1 (mod n)."""
+    if not _has_while(fn, also_for=True):
+        # loop-free implementation (e.g. the builtin pow(a, -1, n)): decided directly at the real modulus, for every integer a,
+        # with the builtin's contract (v in [0, n), a*v == 1 (mod n), ValueError when a == 0 (mod n))
+        n = modulus
+
+        def run_direct(ctx):
+            a = SymZ.var("a")
+            if rp["args"].get("which") != "prime_field_inv":
+                ctx.assume(z3.And(a.t >= 0, a.t < n))
+            return a, fn(a, n)
+
+        def on_direct(pth):
+            rep.paths += 1
+            if pth.kind != "ret":
+                g, m = pth.ctx.satisfiable()
+                if g != "unsat":
+                    rep.fail("%s raised %r" % (tag, pth.value), rp)
+                return
+            a, v = pth.value
+            v = SymZ.lift(v)
+            g, m = pth.ctx.prove(z3.And(v.t >= 0, v.t < n, z3.If(a.t % n == 0, v.t == 0, (a.t * v.t) % n == 1)), timeout_ms=60000)
+            require(rep, g, "%s (loop-free form): 0 <= v < n, a*v == 1 (mod n), inv0(0) = 0, for every integer a" % tag, pth.decisions, rp)
+        core.explore(run_direct, on_path=on_direct)
+        rep.stub("builtin pow(a, -1, n) -> its contract (trusted runtime)")
+        return
     try:
         cut = loopcut.cut(fn, rewriter=lambda m: world._Rewriter().visit(m))
     except loopcut.LoopCutError as e:
